@@ -32,6 +32,8 @@ type env struct {
 	timeout   time.Duration
 	kind      partitions.Kind
 	fragment  *fragment
+	// lockToken is set by Lease: the expiry is updated only if the stored value is this token.
+	lockToken []byte
 }
 
 func newEnv(ctx context.Context) *env {
